@@ -1,131 +1,25 @@
-"""Per-property harness lists (bounds per tier). Each job is one gosmt harness run.
+"""Aggregates per-property harness lists from specs/*.py.
 
-SPEC[id] = {jobs(tier, seed) -> [job], level_text, level_note, assumptions, outside}
+Each specs module defines SPEC = {id: {...}} (see specs/base.py for the shape) and optionally
+NOT_APPLICABLE = {id: reason}.
 """
+import importlib, os, sys, glob
 
 PAR = 16
 DEFAULT_UNWIND = 12
 HOOKS_ENABLE = "harness files are injected with go/packages Overlay and `go test -overlay -tags verif`; nothing is written into /repo by a check"
 HOOK_COMMITS = []
 NOTES = "All claimed checks are bounded: evidence lists the bound vector of every harness run. Exit 3 = inconclusive (never reported as pass)."
+
+SPEC = {}
 NOT_APPLICABLE = {}
-
-MEM = "pkg/storage/memory"
-TUP = "pkg/tuple"
-
-
-def J(pkg, harness, unwind=None, timeout_ms=None, max_paths=None, fork_all=False, **params):
-    j = {"pkg": pkg, "harness": harness, "params": params}
-    if unwind:
-        j["unwind"] = unwind
-    if timeout_ms:
-        j["timeout_ms"] = timeout_ms
-    if max_paths:
-        j["max_paths"] = max_paths
-    if fork_all:
-        j["fork_all"] = True
-    return j
-
-
-def c29(tier, seed):
-    q = tier == "quick"
-    jobs = []
-    for h in ["VerifK29cObject", "VerifK29cRelation", "VerifK29cUserID"]:
-        jobs.append(J(TUP, h, len=3 if q else 5, timeout_ms=60000 if q else 300000))
-        jobs.append(J(TUP, h, len=6 if q else 9, ascii=1, timeout_ms=60000 if q else 300000))
-    jobs.append(J(TUP, "VerifK29aRoundTrip", obj=3, rel=1, usr=3, timeout_ms=120000))
-    jobs.append(J(TUP, "VerifK29aRoundTrip", obj=4, rel=2, usr=4, ascii=1, timeout_ms=120000))
-    jobs.append(J(TUP, "VerifK29aParsePrint", len=8, timeout_ms=120000))
-    jobs.append(J(TUP, "VerifK29bSplitObjectRelation", o=4, r=3, timeout_ms=120000))
-    jobs.append(J(TUP, "VerifK29bUserParts", len=5 if q else 7, timeout_ms=120000))
-    if not q:
-        jobs.append(J(TUP, "VerifK29aRoundTrip", obj=5, rel=3, usr=6, ascii=1, timeout_ms=600000))
-        jobs.append(J(TUP, "VerifK29aParsePrint", len=12, ascii=1, timeout_ms=600000))
-    return jobs
-
-
-def c14(tier, seed):
-    q = tier == "quick"
-    n = 3 if q else 5
-    tok = 2 if q else 3
-    jobs = [
-        J(MEM, "VerifK14aReadPageAnyToken", n=n, tok=tok),
-        J(MEM, "VerifK14aReadPageFollow", n=n + 1),
-        J(MEM, "VerifK14aListStoresAnyToken", n=n, tok=tok),
-        J(MEM, "VerifK14aReadModelsAnyToken", n=n, tok=tok),
-    ]
-    return jobs
-
-
-KEYS = "pkg/storage/cache/keys"
-
-
-def c24(tier, seed):
-    q = tier == "quick"
-    jobs = [
-        J(KEYS, "VerifK24aUniqueDecoding", k=1, str=2, timeout_ms=120000),
-        J(KEYS, "VerifK24aUvarintPrefixFree", timeout_ms=120000),
-        J(KEYS, "VerifK24aHexInjective", len=3 if q else 5, timeout_ms=300000),
-    ]
-    if not q:
-        jobs.append(J(KEYS, "VerifK24aUniqueDecoding", k=2, str=2, timeout_ms=900000))
-    return jobs
-
-
-def c27(tier, seed):
-    q = tier == "quick"
-    P = "internal/authn/presharedkey"
-    return [J(P, "VerifK27Preshared", len=3 if q else 6, timeout_ms=300000), J(P, "VerifK27NoKeys")]
-
-
-def c28(tier, seed):
-    q = tier == "quick"
-    E = "pkg/encoder"
-    return [
-        J(E, "VerifK28aSerializerRoundTrip", u=3 if q else 6, t=4 if q else 8),
-        J(E, "VerifK28aDeserializeAny", len=6 if q else 12),
-        J(E, "VerifK28bTokenEncoder", d=3 if q else 6, timeout_ms=300000),
-    ]
-
-
-SPEC = {
-    "C24": {
-        "jobs": c24,
-        "level_text": "bounded symbolic execution of the cache-key Builder: two arbitrary sequences of Encode* calls (kinds and payloads symbolic, merged into one query) that yield the same bytes are the same sequence with equal payloads (unique decodability of the tag/length framing); uvarint length prefixes are prefix-free for all pairs of uint64; the hex rendering of keys is injective",
-        "level_note": "bounds: sequences of <= 1 (quick) / 2 (thorough) fields per side with strings <= 2 bytes and counts 0..200 (crossing the 1/2-byte uvarint boundary); hex: keys <= 3/5 bytes; digest collisions excluded by the property; trusted: engine semantics, z3",
-        "assumptions": ["slices.Grow only affects capacity", "merging byte slices with different backing arrays at control-flow joins copies them (no aliasing is relied on by the Builder)"],
-        "outside": ["PbValue/Tuple/CheckCacheKey compositions (K24b) until registered", "xxhash digest collisions"],
-    },
-    "C27": {
-        "jobs": c27,
-        "level_text": "bounded symbolic execution of PresharedKeyAuthenticator.Authenticate with 1..3 arbitrary configured keys and an arbitrary presented token (the real subtle.ConstantTimeCompare over 32 digest bytes is encoded): authenticated exactly when the token is a configured key (under collision freedom of the digest, which is an uninterpreted function), missing header => ErrMissingBearerToken, otherwise ErrUnauthenticated; no keys => constructor error",
-        "level_note": "bounds: keys and token <= 3 (quick) / 6 bytes; sha256 is an uninterpreted function with collision freedom assumed for the strings in play; grpc AuthFromMD replaced by its contract (returns the bearer token or an error); OIDC is outside (RSA/JWT library code cannot be encoded)",
-        "assumptions": ["sha256.Sum256 is a function (UF) without collisions on the strings involved", "grpcauth.AuthFromMD returns the bearer token or an error"],
-        "outside": ["OIDC authenticator (JWT parsing, RS256, key-set fetch)", "header parsing inside the grpc middleware"],
-    },
-    "C28": {
-        "jobs": c28,
-        "level_text": "bounded symbolic execution of the continuation-token serializer and of the TokenEncoder+GCMEncrypter framing around an ideal AEAD: serialize/deserialize round-trips for every ulid without '|' and every type string, every accepted string re-serializes to itself, Decode(Encode(d)) = d, and every string that was not issued is rejected (except the documented empty-token pass-through)",
-        "level_note": "bounds: ulid <= 3/6 bytes, type <= 4/8 bytes, payload <= 3/6 bytes, forged token <= payload+4 bytes; AES-GCM replaced by an ideal AEAD with symbolic keystream and tag (Open succeeds exactly on sealed pairs), nonce from crypto/rand = arbitrary bytes; base64 is the identity encoder here (library code outside)",
-        "assumptions": ["ideal AEAD", "crypto/rand yields arbitrary bytes"],
-        "outside": ["AES-GCM and base64 as mathematics", "key derivation strength"],
-    },
-    "C14": {
-        "jobs": c14,
-        "level_text": "bounded symbolic execution of the memory backend's paginated reads (ReadPage, ListStores, ReadAuthorizationModels): for every item count <= N, every page size and EVERY continuation-token byte string up to the bound the solver shows the call either rejects the token or returns the contiguous page at the (clamped) position in the documented order with the exact follow-up token; following issued tokens visits every item once. A panic on any path is a violation.",
-        "level_note": "bounds: N<=3 (quick) / 5 items, tokens <= 2/3 arbitrary bytes, page size 1..N+1; memory backend only (SQL backends are query strings executed by an external engine: outside); strconv.Atoi/Itoa are the real code; trusted: engine semantics, z3",
-        "assumptions": ["forged tokens outside [0,n] may be clamped (what ListStores/ReadAuthorizationModels do) but never restart the listing", "tracing (otel) calls are no-ops"],
-        "outside": ["sqlite/postgres/mysql pagination", "ReadChanges token/type binding (commands layer) until K14b is registered", "data sets larger than the bound"],
-    },
-    "C29": {
-        "jobs": c29,
-        "level_text": "bounded symbolic execution of pkg/tuple's real SSA: for every byte string within the bound the solver shows the validity predicates equal an independent grammar and the print/parse/split/build functions are mutual inverses; unsat = holds for all inputs in the bound, sat = concrete string replayed natively",
-        "level_note": "bounds: strings <= 3..5 arbitrary bytes / <= 6..12 ASCII bytes per field (tier dependent, listed in evidence); trusted: go/ssa, the engine's instruction semantics and UTF-8 decoder, z3",
-        "assumptions": [
-            "unicode.IsControl modelled as r<0x20 or 0x7f<=r<0xa0",
-            "UTF-8 decoding of `range` and utf8.DecodeRuneInString is the engine's bit-vector decoder",
-            "strings.Builder is modelled as an append-only byte slice",
-        ],
-        "outside": ["strings longer than the stated bounds"],
-    },
-}
+_here = os.path.dirname(os.path.abspath(__file__))
+sys.path.insert(0, _here)
+for _f in sorted(glob.glob(os.path.join(_here, "specs", "*.py"))):
+    _m = importlib.import_module("specs." + os.path.basename(_f)[:-3])
+    SPEC.update(getattr(_m, "SPEC", {}))
+    NOT_APPLICABLE.update(getattr(_m, "NOT_APPLICABLE", {}))
+    HOOK_COMMITS += getattr(_m, "HOOK_COMMITS", [])
+for _k in list(NOT_APPLICABLE):
+    if _k in SPEC:
+        del NOT_APPLICABLE[_k]
